@@ -91,7 +91,8 @@ KEEP = {
 
 
 def text_tokens(spec):
-    return [t for n, t, c in spec.get("details", []) if c in ("text", "text-split", "shared")]
+    return [t for n, t, c in spec.get("details", []) if c in ("text", "text-split", "shared")] + [
+        t.swapcase() for n, t, c in spec.get("details", []) if c == "override"]
 
 
 def check_payload(ctx, flavour, spec, ev, detail):
@@ -321,7 +322,41 @@ def x_holder(ctx, case):
     return seen > 0
 
 
-SUBCHECKS = {"case": x_case, "holder": x_holder}
+def x_tbt_reentrant(ctx, case):
+    """A TestByTestResult whose on_test callback reacts to a failed test by running a retry of it into the SAME
+    result at once (a retry driver): the retry is a test of its own - its callback carries its own tags (the
+    run-level ones), not the local tags of the test that was just stopped."""
+    import testtools
+    calls = []
+
+    def on_test(test, status, start_time, stop_time, tags, details):
+        calls.append((test.id(), status, frozenset(tags)))
+        if status in case["retry_on"] and not test.id().endswith("-retry"):
+            testtools.PlaceHolder(test.id() + "-retry").run(tbt)
+    tbt = testtools.TestByTestResult(on_test)
+    tbt.startTestRun()
+    tbt.tags(set(case["run_tags"]), set())
+    want = []
+    for i, (outcome, local) in enumerate(case["tests"]):
+        t = testtools.PlaceHolder("t%d" % i)
+        tbt.startTest(t)
+        tbt.tags(set(local), set())
+        if outcome == "addSuccess":
+            tbt.addSuccess(t)
+        else:
+            getattr(tbt, outcome)(t, H.make_exc_info("x"))
+        tbt.stopTest(t)
+        status = {"addSuccess": "success", "addFailure": "failure", "addError": "error"}[outcome]
+        want.append(("t%d" % i, status, frozenset(case["run_tags"]) | frozenset(local)))
+        if status in case["retry_on"]:
+            want.append(("t%d-retry" % i, "success", frozenset(case["run_tags"])))
+    tbt.stopTestRun()
+    ctx.check(sorted(map(repr, calls)) == sorted(map(repr, want)), "tbt.callback-fields",
+              lambda: {"calls": calls, "want": want, "case": case})
+    return True
+
+
+SUBCHECKS = {"case": x_case, "holder": x_holder, "tbt_reentrant": x_tbt_reentrant}
 
 
 def single_test_histories():
@@ -393,6 +428,12 @@ def run(ctx):
                     ctx.execute("holder", {"stack": s, "stale_traceback": stale, "extra": extra})
     ctx.note_space("%d stacks of depth <= 2 x an ErrorHolder with / without a stale 'traceback' detail and another "
                    "detail" % len(upto2), n)
+    for run_tags in ([], ["r"]):
+        for retry_on in (["failure"], ["failure", "error"], []):
+            for tests in ([["addFailure", ["l1"]], ["addSuccess", []]], [["addSuccess", ["a"]], ["addError", ["b", "c"]]],
+                          [["addFailure", []], ["addFailure", ["z"]]]):
+                if ctx.mine():
+                    ctx.execute("tbt_reentrant", {"run_tags": run_tags, "retry_on": retry_on, "tests": tests})
     # one lazy Content object (a log buffer) attached to every one of 2-3 tests, its source moving on in between
     n = 0
     OUTS = ["addFailure", "addError", "addSkip", "addExpectedFailure", "addSuccess", "addUnexpectedSuccess"]
